@@ -2,7 +2,8 @@
 
     A case is a pair of module sets (a, b) generated from one internal AST, where b = T a for a
     meaning-preserving refactoring T (inline a uses, extract a grouping, move an augment's body into
-    its target, move a definition into a submodule, move a grouping into an imported module), or
+    its target, move a definition into a submodule, move a grouping into an imported module,
+    give every grouping definition a fresh name of its own), or
     b = a (plain load), together with what the real library delivered for both (accessor dump).
 
     corr:     both dumps equal the model's [compile_modset];
